@@ -36,7 +36,11 @@ func (v *FnVerifier) blobFuns() (ntok, toks, blen, sub, tail string) {
 	ax := []string{
 		fmt.Sprintf("(forall ((b Int)) (! (and (>= (%s b) 0) (>= (%s b) 0)) :pattern ((%s b))))", ntok, blen, ntok),
 		// the whole blob is its own view
-		fmt.Sprintf("(forall ((b Int)) (! (= (%s b 0 (%s b)) b) :pattern ((%s b 0 (%s b)))))", sub, blen, sub, blen),
+		fmt.Sprintf("(forall ((b Int) (n Int)) (! (=> (= n (%s b)) (= (%s b 0 n) b)) :pattern ((%s b 0 n))))", blen, sub, sub),
+		// there is one empty byte string
+		fmt.Sprintf("(forall ((b Int)) (! (=> (= (%s b) 0) (= b (%s 0 0 0))) :pattern ((%s b))))", blen, sub, blen),
+		// a view that lies within the blob has the length asked for
+		fmt.Sprintf("(forall ((b Int) (o Int) (n Int)) (! (=> (and (<= 0 o) (<= 0 n) (<= (+ o n) (%s b))) (= (%s (%s b o n)) n)) :pattern ((%s b o n))))", blen, blen, sub, sub),
 		// an empty view holds nothing
 		fmt.Sprintf("(forall ((b Int) (o Int)) (! (and (= (%s (%s b o 0)) 0) (= (%s (%s b o 0)) 0) (not (%s (%s b o 0)))) :pattern ((%s b o 0))))", ntok, sub, blen, sub, tail, sub, sub),
 	}
